@@ -129,6 +129,11 @@ def run(ids):
                 short = key.split("::", 1)[1] if "::" in key else key
                 if prop in check.REVIEW_ONLY.get(short, ()):
                     und.append("%s changed: reviewed-only glue, %s undecided" % (short, prop))
+            if prop == "C01":
+                for key in weave.pinned_changed(REPO):
+                    short = key.split("::", 1)[1] if "::" in key else key
+                    if short not in check.REVIEW_ONLY and not any(kani_run.touches(u, [key]) for u in kani_run.units()):
+                        und.append("%s changed: outside both engines, C01 undecided" % short)
             allf = fails + kfails
             props = sorted(set(t for f in allf for t in f["tags"]))
             meta["detection"] = {"alarm_for_target_property": prop in props, "properties_alarmed": props,
